@@ -195,6 +195,16 @@ def sem (m : Mode) (a : Arr) : Expr → Focus → Val
     let ds := (allNodes a).filter fun i => onAxis m a .descendantOrSelf 0 i
     ofSets a (nodeSets (ds.map fun d => sem m a e { f with item := d }))
   | .paren e, f => sem m a e f
+  | .union l r, f =>
+    -- §3.3: "The | operator computes the union of its operands, which must be node-sets."
+    match sem m a l f, sem m a r f with
+    | .nodes x, .nodes y => .nodes (unionSets a [x, y])
+    | _, _ => .err
+  | .count e, f =>
+    -- §4.1: "The count function returns the number of nodes in the argument node-set."
+    match sem m a e f with
+    | .nodes l => .num l.length
+    | _ => .err
   | .num k, _ => .num k
   | .position, f => .num f.pos
   | .last, f => .num f.size
